@@ -38,6 +38,7 @@ type Prog struct {
 	SSA     *ssa.Program
 	SSAPkgs map[string]*ssa.Package
 	Files   []string // Go files of the module that were parsed
+	TypeErrs map[string][]string
 	funcs   map[*ssa.Function]bool
 }
 
@@ -64,19 +65,22 @@ func Load(dir string, cfg Config) (*Prog, error) {
 	}
 	p := &Prog{Dir: dir, Cfg: cfg, Pkgs: map[string]*packages.Package{}, SSAPkgs: map[string]*ssa.Package{}, Initial: pkgs}
 	var errs []string
+	p.TypeErrs = map[string][]string{}
 	packages.Visit(pkgs, nil, func(pk *packages.Package) {
 		p.Pkgs[pk.PkgPath] = pk
 		if strings.HasPrefix(pk.PkgPath, ModPath) {
 			for _, e := range pk.Errors {
 				errs = append(errs, e.Error())
+				p.TypeErrs[pk.PkgPath] = append(p.TypeErrs[pk.PkgPath], e.Error())
 			}
 			p.Files = append(p.Files, pk.CompiledGoFiles...)
 		}
 	})
 	sort.Strings(p.Files)
 	p.Fset = pkgs[0].Fset
+	var loadErr error
 	if len(errs) > 0 {
-		return p, fmt.Errorf("type errors in module packages (%s): %s", cfg, strings.Join(errs, "; "))
+		loadErr = fmt.Errorf("type errors in module packages (%s): %s", cfg, strings.Join(errs, "; "))
 	}
 	prog, _ := ssautil.AllPackages(pkgs, ssa.InstantiateGenerics)
 	prog.Build()
@@ -85,7 +89,35 @@ func Load(dir string, cfg Config) (*Prog, error) {
 		p.SSAPkgs[sp.Pkg.Path()] = sp
 	}
 	p.funcs = ssautil.AllFunctions(prog)
-	return p, nil
+	return p, loadErr
+}
+
+// BrokenIn reports type errors in the module packages with the given
+// module-relative paths or in module packages they import.
+func (p *Prog) BrokenIn(rels []string) []string {
+	var out []string
+	seen := map[string]bool{}
+	var visit func(path string)
+	visit = func(path string) {
+		if seen[path] {
+			return
+		}
+		seen[path] = true
+		pk := p.Pkgs[path]
+		if pk == nil {
+			return
+		}
+		out = append(out, p.TypeErrs[path]...)
+		for ip := range pk.Imports {
+			if strings.HasPrefix(ip, ModPath) {
+				visit(ip)
+			}
+		}
+	}
+	for _, r := range rels {
+		visit(ModPath + "/" + r)
+	}
+	return out
 }
 
 // AllFuncs returns every function in the program (including closures).
@@ -343,6 +375,11 @@ func (c *Ctx) Seen(f *ssa.Function) {
 
 // Finish checks minimum instance counts.
 func (c *Ctx) Finish() {
+	// the minimum instance counts were confirmed by hand for linux/amd64; platform siblings
+	// legitimately have different shapes (lost anchors are still reported by Need)
+	if c.CfgName != "" && c.CfgName != "linux/amd64" {
+		return
+	}
 	count := map[string]int{}
 	for _, o := range c.Obls {
 		if o.Status != Info {
